@@ -163,6 +163,9 @@ pub fn gen_c01(tier: &str, seed: u64) -> Vec<Vec<String>> {
     // the stream continued by later runs (append), with every timestamp format incl. the one whose
     // text order is not the time order: what "oldest to newest" means must not depend on the names
     cases.extend(gen_c06_across_month_end(tier, seed ^ 0xC01E).into_iter().take(n_cases(tier, 40, 600) as usize).map(|mut c| { c[0] = c[0].replacen("C06 ", "C01 ", 1); c }));
+    // records logged from within the Display implementation of a logged value (the code has a
+    // separate path for them), with the configured line ending CRLF, into a file
+    cases.extend(crate::props::robust::gen_c20_recursive(tier, seed).into_iter().map(|mut c| { c[0] = c[0].replacen("C20 ", "C01 ", 1); c }));
     cases
 }
 
@@ -207,8 +210,8 @@ pub fn gen_hist(o: &Opts, r: &mut Rng, k: u64, tier: &str) -> Vec<String> {
     let naming = *r.pick(o.namings);
     let no_rot = o.ext && r.chance(1, 3) || (o.prop == "C06" && r.chance(1, 8));
     let (spec, has_suffix) = gen_spec(r, naming);
-    // custom formats other than the standard one are kept out of append-restarts (finding: 20-byte slice)
-    let spec = if o.restarts > 0 && o.prop != "C06" { spec.rsplitn(2, ' ').nth(1).map(|s| format!("{s} 0")).unwrap() } else { spec };
+    // (custom formats used to be kept out of histories with restarts because of the 20-byte slice in
+    //  the start-up listing; that defect is repaired, the guard is gone)
     // C06: restarts with every format, incl. the day-first one (text order ≠ time order)
     let dayfirst = o.prop == "C06" && !o.cleanup && naming.starts_with("ts") && r.chance(1, 3);   // (with cleanup: known finding C07-day-first-format)
     let spec = if dayfirst { spec.rsplitn(2, ' ').nth(1).map(|s| format!("{s} 3")).unwrap() } else { spec };
@@ -388,10 +391,17 @@ pub fn gen_c08(tier: &str, seed: u64) -> Vec<Vec<String>> {
     // … and with a cleanup strategy whose steps can fail (the cleanup runs in the rotating thread):
     // the size accounting of the file mounted by a rotation must not depend on how the cleanup ends
     v.extend(gen_with(Opts { prop: "C08", size: true, age: false, force_rot: true, restarts: 0, cleanup: true, faults: true, ext: false, modes: false, max_ops: 40, namings: ALL, foreign: false, exist: false, bg: 0 }, tier, seed ^ 0xC08F, 150, 2000).into_iter().map(|mut c| { c[0] = c[0].replacen("C08 ", "C08 f", 1); c }));
+    // … and with reopen_outputfile() between the records, the file still in place or moved away:
+    // the accounting goes on with what the file at the path holds
+    v.extend(gen_with(Opts { prop: "C18", size: true, age: false, force_rot: true, restarts: 0, cleanup: false, faults: false, ext: true, modes: false, max_ops: 40, namings: ALL, foreign: false, exist: false, bg: 0 }, tier, seed ^ 0xC08E, 150, 2000).into_iter().map(|mut c| { c[0] = c[0].replacen("C18 ", "C08 e", 1); c }));
     v
 }
 pub fn gen_c09(tier: &str, seed: u64) -> Vec<Vec<String>> {
     let mut v = gen_c09_virtual(tier, seed);
+    // age-or-size with BOTH parts active (the size part closes files inside a period, and at some
+    // rotations both parts hold at once): the start time of every file is the one of ITS first record
+    v.extend(gen_with(Opts { prop: "C01", size: true, age: true, force_rot: false, restarts: 1, cleanup: false, faults: false, ext: false, modes: false, max_ops: 40, namings: ALL, foreign: false, exist: false, bg: 0 }, tier, seed ^ 0xC09B, 200, 3000)
+        .into_iter().map(|mut c| { c[0] = c[0].replacen("C01 ", "C09 x", 1); c }));
     v.extend(gen_c09_realclock(tier, seed));
     v
 }
@@ -822,6 +832,22 @@ pub fn gen_c04(tier: &str, seed: u64) -> Vec<Vec<String>> {
             // ends with flush() under concurrent logging (nothing is compared afterwards: the other
             // threads' records are not part of the history)
             c.push("LFLUSHC".into());
+            c.push("END".into());
+            cases.push(c);
+            continue;
+        }
+        if !is_async && r.chance(1, 4) {
+            // shutdown() is not the end (synchronous modes: the writer stays usable): records logged
+            // after it must be in the output once the last handle has been dropped
+            c.push("LSHUT".into());
+            c.push("READ".into());
+            for _ in 0..r.range(1, 3) {
+                c.push(format!("LW {} {}", hex(&record(seq, r.range(2, 40))), clock.tick(&mut r)));
+                seq += 1;
+            }
+            c.push("LDROPALL".into());
+            c.push("READ".into());
+            c.push("PARTS".into());
             c.push("END".into());
             cases.push(c);
             continue;
